@@ -96,6 +96,15 @@ var checks = []Check{
 		Assumptions: []string{"strict configuration: no connection reset or node isolation is injected; receivers keep their mailbox open until every sender has finished", "InputChan/OutputChan are exercised by C01; SingleOutputChan and raft's CustomInChan are not exercised yet"},
 		MustProbe:   []string{"kind_tcp", "kind_relaxed", "abort_after_send", "abort_after_receive", "read_timeout", "two_or_more_senders", "multi_message_batch_checked"}, MinRunsForProbes: 2000,
 	},
+	{
+		ID: "C07", Pkg: "checks/c07", Instr: coreInstr,
+		QuickRuns: 40000, ThoroughRuns: 2000000, QuickBudgetS: 60, ThoroughBudgetS: 1200, ShrinkS: 45,
+		Rule: "one run = 2-5 archetype contexts sharing 1-4 variables (scalar or function-valued, accessed through indices) through the real LocalSharedManager with lock time-outs drawn from 0 / 1 ms / 50 ms / 1 s; each context runs 1-5 sections that increment, transfer an amount between two variables, or read/write unique values in a drawn order (opposite orders occur), failing 1-2 times at drawn positions; schedules pre-empt at every yield and stall tasks while they hold locks; the history of committed sections (invoke/return stamped with event sequence numbers) is checked for strict serializability with porcupine against a multi-register transaction model outside the simulation; all contexts must finish within 30 simulated minutes; non-trivial = at least 2 committed sections and a pre-emption or lock time-out; distinct = distinct interleaving digests",
+		Real:        realU,
+		Stub:        stubU,
+		Assumptions: []string{"porcupine time-outs (20 s) are counted as inconclusive, never reported", "Persistent wrapping of shared variables is exercised by C01"},
+		MustProbe:   []string{"lock_timeout", "second_lock_in_section", "attempt_aborted", "three_or_more_sharers"}, MinRunsForProbes: 2000,
+	},
 }
 
 func findCheck(id string) *Check {
